@@ -25,8 +25,8 @@ const BATCH: u64 = 256;
 
 fn plan(tier: Tier) -> Vec<Workload> {
     vec![
-        Workload::new("lines", tier.pick(300_000, 6_000_000) / BATCH),
-        Workload::new("programs", tier.pick(20_000, 400_000)),
+        Workload::new("lines", tier.pick(600_000, 10_000_000) / BATCH),
+        Workload::new("programs", tier.pick(40_000, 800_000)),
     ]
 }
 
